@@ -923,6 +923,26 @@ impl Oracle for LedgerOracle {
                 }
             }
         }
+        // the confirm time-out of a solicited response that was itself transmitted within this step (a long wait): the carrier
+        // is abandoned if the time-out came after its last solicited fragment
+        {
+            let last_sol_order = step
+                .received
+                .iter()
+                .filter(|r| r.frag.as_ref().map(|f| f.func == refapp::FUNC_RESPONSE).unwrap_or(false))
+                .map(|r| r.order)
+                .max();
+            let timed_out_later = step.callbacks.iter().enumerate().any(|(i, (_, cb))| {
+                matches!(cb, Cb::Info(s) if s.starts_with("solicited_confirm_timeout"))
+                    && last_sol_order
+                        .map(|o| step.callback_orders.get(i).copied().unwrap_or(0) > o)
+                        .unwrap_or(false)
+            });
+            if timed_out_later {
+                self.sol = None;
+                self.last_sol_bytes = None;
+            }
+        }
         if events_reported_in_step > 0 {
             self.bump("probe.events_reported");
         }
